@@ -90,7 +90,7 @@ class Composition:
         if kind == 'actuate_door':
             return {'name': kind, 'reward_open': rfloat(rng), 'reward_close': rfloat(rng)}
         if kind == 'pickndrop':
-            return {'name': kind, 'object_type': tn(rng.choice(self.types)), 'reward_pick': rfloat(rng),
+            return {'name': kind, 'object_type': tn(Key if Key in self.types and rng.random() < 0.7 else rng.choice(self.types)), 'reward_pick': rfloat(rng),
                     'reward_drop': rfloat(rng)}
         if kind == 'overlap':
             return {'name': kind, 'object_type': tn(rng.choice(self.types)), 'reward_on': rfloat(rng),
